@@ -167,15 +167,19 @@ CLAIMED = {
         ref="DESIGN.md §4 C05"),
     "C08": dict(
         text="Lean 4 theorems over a linearly ordered field: line and quadratic-Bezier boxes contain point(t) for every t in [0,1], are "
-             "ordered, and each side is attained (vertex/endpoint case analysis); the box of any list of members (path, subpath, group, "
+             "ordered, and each side is attained (vertex/endpoint case analysis); the same for cubic Beziers (C08_cubic: Simpson's rule is "
+             "exact for cubics, the derivative's sign follows from its factorisation over the roots _real_minmax computes; for every "
+             "cubic whose leading coefficient per coordinate is >= the code's 1e-8 threshold in size or exactly 0, given a square root "
+             "on the non-negatives); the box of any list of members (path, subpath, group, "
              "use) is the componentwise union, contains every member and each side is some member's side (list induction), empty "
-             "containers have none; stroke growth by delta on every side. Cubic and arc boxes are NOT proved: the transcribed "
+             "containers have none; stroke growth by delta on every side. Arc boxes, and cubics with a leading coefficient strictly inside the "
+             "threshold, are NOT proved: the transcribed "
              "algorithms (Model/BBox.lean) are compared with the code, and a dense-sampling + ternary-refinement oracle checks "
              "containment and tightness of all four sides on the implementation, for segments, shapes/paths/subpaths in all four "
              "(transformed, with_stroke) combinations with painted/none/unset strokes, and groups.",
-        note="Partial: cubic Bezier and elliptical-arc boxes are decided by correspondence + oracle, not by theorem. Known finding "
+        note="Partial: elliptical-arc boxes (and cubics with 0 < |leading coefficient| < 1e-8) are decided by correspondence + oracle, not by theorem. Known finding "
              "C08-roundshape-bbox. Sampling oracle resolution 161 samples + refinement, tolerance 2e-7 of the object size.",
-        technique="Lean 4 proof (ordered-field case analysis, nlinarith, list induction) for lines/quadratics/unions/stroke + differential correspondence + sampling oracle for cubics and arcs",
+        technique="Lean 4 proof (ordered-field case analysis, nlinarith, list induction) for lines/quadratics/cubics/unions/stroke + differential correspondence + sampling oracle (arcs decided by those alone)",
         ref="DESIGN.md §4 C08"),
     "C06": dict(
         text="Lean 4 theorems: the rect corner-radius decision table equals the SVG 2 10.2 used values for every given/omitted/zero/"
